@@ -33,8 +33,16 @@ type c05Job struct {
 	Graph  string         `json:"graph"`
 	Steps  map[string]int `json:"steps"` // integration name -> number of Converge calls of its thread (0: never starts)
 	Batch  int            `json:"batch"`
-	Grow   bool           `json:"grow"`   // an environment thread reveals the last block
-	DStart uint64         `json:"dstart"` // start block of the dependent "d" (default 1)
+	Grow   bool           `json:"grow"`             // an environment thread reveals the last block
+	DStart uint64         `json:"dstart"`           // start block of the dependent "d" (default 1)
+	Blocks int            `json:"blocks,omitempty"` // chain length (default 3)
+}
+
+func (j c05Job) blocks() int {
+	if j.Blocks == 0 {
+		return 3
+	}
+	return j.Blocks
 }
 
 type c05Case struct {
@@ -69,9 +77,9 @@ func init() {
 
 var (
 	c05Registry = simeth.Addr("c05-registry")
-	c05V        = [4][]byte{nil, simeth.Addr("c05-v1"), simeth.Addr("c05-v2"), simeth.Addr("c05-v3")} // `from` values registered with R1 in block m
-	c05U        = [4][]byte{nil, simeth.Addr("c05-u1"), simeth.Addr("c05-u2"), simeth.Addr("c05-u3")} // emitters registered with R2 in block m
-	c05W        = [4][]byte{nil, simeth.Addr("c05-w1"), simeth.Addr("c05-w2"), simeth.Addr("c05-w3")} // tx_to values registered with R1 in block m
+	c05V        = [6][]byte{nil, simeth.Addr("c05-v1"), simeth.Addr("c05-v2"), simeth.Addr("c05-v3"), simeth.Addr("c05-v4"), simeth.Addr("c05-v5")} // `from` values registered with R1 in block m
+	c05U        = [6][]byte{nil, simeth.Addr("c05-u1"), simeth.Addr("c05-u2"), simeth.Addr("c05-u3"), simeth.Addr("c05-u4"), simeth.Addr("c05-u5")} // emitters registered with R2 in block m
+	c05W        = [6][]byte{nil, simeth.Addr("c05-w1"), simeth.Addr("c05-w2"), simeth.Addr("c05-w3"), simeth.Addr("c05-w4"), simeth.Addr("c05-w5")} // tx_to values registered with R1 in block m
 	c05X        = simeth.Addr("c05-unregistered-from")
 	c05Y        = simeth.Addr("c05-unregistered-emitter")
 )
@@ -117,6 +125,20 @@ func c05Decls(j c05Job) *c05Graph {
 			d.FilterAgg = "or"
 		}
 		g.decls, g.deps["d"] = []*world.Decl{r1, r2, d}, []string{"r1", "r2"}
+	case "shared", "shared-or", "shared-rev", "shared-rev-or":
+		// D -> {R1, R2} where R1 and R2 write to ONE table: two dependencies although one table is looked up
+		r1.Table, r2.Table = "rts", "rts"
+		a, b := refR1, refR2
+		if strings.HasPrefix(j.Graph, "shared-rev") { // the input references R2, the block field R1
+			a, b = refR2, refR1
+		}
+		d.Inputs[0].Op, d.Inputs[0].Ref = "contains", a
+		d.Fields = []world.Field{{Name: "log_addr", Column: "log_addr", Op: "contains", Ref: b}}
+		d.FilterAgg = "and"
+		if strings.HasSuffix(j.Graph, "-or") {
+			d.FilterAgg = "or"
+		}
+		g.decls, g.deps["d"] = []*world.Decl{r1, r2, d}, []string{"r1", "r2"}
 	case "chain": // D2 -> D -> R1
 		d.Inputs[0].Op, d.Inputs[0].Ref = "contains", refR1
 		d2 := &world.Decl{Name: "d2", Table: "d2t", Event: "Act", Sources: src(1), Inputs: []world.Input{
@@ -145,10 +167,10 @@ func (g *c05Graph) decl(name string) *world.Decl {
 
 var c05ChainCache = map[string]*simeth.Chain{}
 
-// c05BuildChain: blocks 1..3. Block m, tx0 (registry): RegOne(v_m), RegOne(w_m), RegTwo(u_m), Other;
+// c05BuildChain: blocks 1..n. Block m, tx0 (registry): RegOne(v_m), RegOne(w_m), RegTwo(u_m), Other;
 // tx1 (to = w_m): Transfer logs {u_m,v_m} {u_m,X} {Y,v_m} {u_(m-1),v_(m-1)}, Act(v_m), Act(X), Act(v_(m-1)).
-func c05BuildChain(g *c05Graph) *simeth.Chain {
-	if c, ok := c05ChainCache["c"]; ok {
+func c05BuildChain(n int) *simeth.Chain {
+	if c, ok := c05ChainCache[fmt.Sprint(n)]; ok {
 		return c
 	}
 	src := []world.SrcRef{{Name: "src1", Start: 1}}
@@ -159,7 +181,7 @@ func c05BuildChain(g *c05Graph) *simeth.Chain {
 	oth := &world.Decl{Name: "u", Event: "Other", Inputs: []world.Input{{Name: "x", Type: "address", Indexed: true, Column: "x"}, {Name: "y", Type: "uint256", Column: "y"}}}
 	aw := world.AddrWord
 	var specs []simeth.BlockSpec
-	for m := 1; m <= 3; m++ {
+	for m := 1; m <= n; m++ {
 		to := simeth.Addr(fmt.Sprintf("c05-to-%d", m))
 		t0 := simeth.TxSpec{Logs: []*simeth.Log{r1.MkLog(c05Registry, aw(c05V[m])), r1.MkLog(c05Registry, aw(c05W[m])), r2.MkLog(c05Registry, aw(c05U[m])),
 			oth.MkLog(c05Registry, aw(c05V[m]), world.U(uint64(m)))}}
@@ -176,11 +198,11 @@ func c05BuildChain(g *c05Graph) *simeth.Chain {
 		specs = append(specs, simeth.BlockSpec{Txs: []simeth.TxSpec{t0, t1}})
 	}
 	c := simeth.Build(specs, 5)
-	for m := 1; m <= 3; m++ {
+	for m := 1; m <= n; m++ {
 		c.Blocks[m].Txs[1].To = append([]byte{}, c05W[m]...)
 	}
 	c.Seal()
-	c05ChainCache["c"] = c
+	c05ChainCache[fmt.Sprint(n)] = c
 	return c
 }
 
@@ -229,6 +251,29 @@ func c05Jobs(thorough bool) []c05Job {
 			add(g, st("r1", 2, "r2", 2, "d", 2), 1, false, 1)
 		}
 	}
+	// two referenced integrations on ONE table (two dependencies, one looked-up table), both reference orders
+	for _, g := range []string{"shared", "shared-rev", "shared-or", "shared-rev-or"} {
+		add(g, st("r1", 2, "r2", 0, "d", 2), 1, false, 1) // R2 never starts
+		add(g, st("r1", 0, "r2", 2, "d", 2), 1, false, 1) // R1 never starts
+		if g == "shared" || thorough {
+			add(g, st("r1", 2, "r2", 1, "d", 2), 2, false, 1)
+		}
+		if g == "shared-rev" || thorough {
+			add(g, st("r1", 1, "r2", 2, "d", 2), 1, false, 1)
+		}
+	}
+	// dependency position p below the head with  p - local < batch < head - local : the dependent must stop at p
+	long := func(graph string, steps map[string]int, batch int, grow bool, dstart uint64, blocks int) {
+		jobs = append(jobs, c05Job{Graph: graph, Steps: steps, Batch: batch, Grow: grow, DStart: dstart, Blocks: blocks})
+	}
+	long("input", st("r1", 1, "d", 2), 2, false, 2, 4) // p=2, local=1, head=4
+	long("input", st("r1", 2, "d", 2), 2, true, 1, 4)  // head 3 -> 4: p=2 then 3, local 2
+	long("input", st("r1", 1, "d", 2), 3, false, 2, 5) // p=3, local=1, head=5
+	long("input", st("r1", 2, "d", 2), 3, false, 3, 5) // p=3 then 5, local=2
+	long("field", st("r2", 1, "d", 1), 2, false, 2, 4)
+	long("txfield", st("r1", 1, "d", 2), 3, false, 2, 5)
+	long("two", st("r1", 1, "r2", 2, "d", 1), 2, false, 2, 5)   // p = min(2, 4) = 2, local 1
+	long("chain", st("r1", 2, "d", 1, "d2", 1), 2, false, 2, 5) // D stops at 2..4, D2 (start 1) at D's position
 	add("chain", st("r1", 2, "d", 2, "d2", 1), 1, false, 1)
 	add("chain", st("r1", 1, "d", 1, "d2", 2), 1, false, 1)
 	add("chain", st("r1", 1, "d", 2, "d2", 2), 2, false, 1)
@@ -281,7 +326,7 @@ type c05Prep struct {
 var c05PrepCache = map[string]*c05Prep{}
 
 func c05Prepare(j c05Job) (*c05Prep, error) {
-	key := fmt.Sprintf("%s/%d/%d", j.Graph, j.Batch, j.DStart)
+	key := fmt.Sprintf("%s/%d/%d/%d", j.Graph, j.Batch, j.DStart, j.blocks())
 	p, ok := c05PrepCache[key]
 	if !ok {
 		p = &c05Prep{g: c05Decls(j)}
@@ -293,17 +338,17 @@ func c05Prepare(j c05Job) (*c05Prep, error) {
 		if p.snap, err = world.InitDB(conf); err != nil {
 			return nil, err
 		}
-		p.full = c05BuildChain(p.g)
+		p.full = c05BuildChain(j.blocks())
 		p.final = map[string][]world.Row{}
 		for _, d := range p.g.decls { // config order is a topological order of the graph
-			p.final[d.Name] = d.Expect(p.full, "src1", 7, d.Sources[0].Start, 3, p.lookup())
+			p.final[d.Name] = d.Expect(p.full, "src1", 7, d.Sources[0].Start, uint64(j.blocks()), p.lookup())
 		}
 		c05PrepCache[key] = p
 	}
 	q := *p
 	q.init = p.full
 	if j.Grow {
-		q.init = p.full.Truncate(2)
+		q.init = p.full.Truncate(uint64(j.blocks() - 1))
 	}
 	return &q, nil
 }
@@ -311,9 +356,16 @@ func c05Prepare(j c05Job) (*c05Prep, error) {
 // lookup answers a reference filter against the model's final tables.
 func (p *c05Prep) lookup() world.RefLookup {
 	return func(ig, col string, v []byte) bool {
-		for _, r := range p.final[ig] {
-			if b, ok := r[col].([]byte); ok && string(b) == string(v) {
-				return true
+		// the look-up reads the referenced integration's TABLE: every integration writing to it contributes
+		ref := p.g.decl(ig)
+		for _, d := range p.g.decls {
+			if ref == nil || d.Table != ref.Table {
+				continue
+			}
+			for _, r := range p.final[d.Name] {
+				if b, ok := r[col].([]byte); ok && string(b) == string(v) {
+					return true
+				}
 			}
 		}
 		return false
@@ -675,7 +727,7 @@ func c05Run(c *fw.Ctx) {
 	c.Bound("jobs", len(jobs))
 	c.Bound("preemptions", map[bool]int{false: 1, true: 2}[c.Thorough()])
 	c.Bound("io_granularity_every_sql_and_rpc", c.Thorough())
-	c.Bound("chain_blocks", 3)
+	c.Bound("chain_blocks", "3 (4 and 5 on the batch-overshoot jobs)")
 	for _, j := range jobs {
 		if !c.Mine() {
 			continue
